@@ -8,7 +8,7 @@ From AS Require Import Base.
 From AS.Model Require Import Table Ops.
 From AS Require Import Effects.
 From AS.Spec Require Import Terminal.
-From AS.Proofs Require Import TableProofs SliceProofs PadProofs ApplyProofs SgrAlgebra ApplyDisplay.
+From AS.Proofs Require Import TableProofs SliceProofs PadProofs ApplyProofs SgrAlgebra ApplyDisplay GenFns.
 
 (* the text never changes *)
 Theorem C06_text : forall s new st en top, base (apply_fmt s new st en top) = base s.
@@ -130,3 +130,10 @@ Print Assumptions C06_preserves.
 
 (* non-vacuity: the example of Proofs/ApplyProofs.v satisfies every hypothesis *)
 Example C06_example := ApplyExample.ex_hyps.
+
+(* the range normalisation (negative, omitted, too large bounds) IS the code's _slice_val_to_idx: its body
+   is re-translated from the Python source on every run (Gen/Fns.v) and shown equal to slice_idx *)
+Theorem C06_bounds_are_code : forall (len : nat) (v : option Z) (d : nat),
+  Z.of_nat (slice_idx len v d) = AS.Gen.Fns.gen_slice_val_to_idx (Z.of_nat len) v (Z.of_nat d).
+Proof. exact slice_idx_is_code. Qed.
+Print Assumptions C06_bounds_are_code.
